@@ -16,6 +16,7 @@
 #include <set>
 #include <sstream>
 #include <string>
+#include <dirent.h>
 #include <unistd.h>
 #include <unordered_set>
 #include <vector>
@@ -30,6 +31,21 @@
 
 namespace vf
 {
+
+// removes a scratch directory with the plain files in it
+inline void remove_tree(std::string const& dir)
+{
+    if (DIR* d = ::opendir(dir.c_str()))
+    {
+        while (dirent* e = ::readdir(d))
+        {
+            std::string const n = e->d_name;
+            if (n != "." && n != "..") ::unlink((dir + "/" + n).c_str());
+        }
+        ::closedir(d);
+    }
+    ::rmdir(dir.c_str());
+}
 
 // ------------------------------------------------------------------------------------------------
 // small helpers
